@@ -5,6 +5,7 @@ cd /repo || exit 2
 [ -z "$(git status --porcelain)" ] || { echo "/repo not clean"; exit 2; }
 git apply --3way "$S/patch.diff" >/dev/null 2>&1 || { echo "patch does not apply"; git checkout -q -- .; exit 2; }
 git reset -q
+trap 'git -C /repo checkout -q -- .' EXIT INT TERM
 for P in "$@"; do
   OUT=$(cd /verif && bin/check $P --tier $TIER 2>/tmp/try_seed_err.$$); RC=$?
   echo "$(basename $S) vs $P ($TIER): rc=$RC $(echo "$OUT" | grep -c '^VIOLATION') violation line(s)"
